@@ -10,6 +10,7 @@
 (D) once: a continuation record (NONE-qualified, its code open on the thread) yields no trace of its own
     (clause of the _feed_single_event contract, C04) - checked here on the real code.
 (E) schema S-paths: the k-th path shown by a path-taking decoder is the k-th lookup of its whole window."""
+import ast
 import z3
 
 from pyvc.harness import Session
@@ -61,11 +62,40 @@ def verify_vnode_generator(run, tier, prefix='C08/vnode_generator', only=None):
             return False
         ctx = it.ctx
         sink = it.lookup('$yield', fr)
-        # the invariant is stated over the loop's own state variables; a loop that keeps its state elsewhere needs another one
-        for nm in ('path', 'vnodeid', 'lookup_events'):
-            if fr._loc_get(nm) is MISSING:
-                raise Unsupported('the record loop of vnode_generator no longer keeps its state in the local %r: the loop invariant of the '
-                                  'contract does not apply to this shape' % nm)
+        # the invariant speaks about the loop's three pieces of state - the bytes collected so far, the vnode word of the group's
+        # START record, the records of the group - wherever the loop keeps them: each is found by its initial value (b'', 0, [])
+        # among the locals and the fields of objects held in locals (access paths, so that a fresh state object per group works)
+        def paths_of(pred):
+            out = []
+            for nm, v in list(fr.vars.items()):
+                if nm.startswith('$') or (isinstance(stmt.target, ast.Name) and nm == stmt.target.id):
+                    continue
+                if pred(v):
+                    out.append((nm, None))
+                if isinstance(v, Obj) and v.cls.kind in ('plain', 'dataclass'):
+                    for f_, fv in v.fields.items():
+                        if pred(fv):
+                            out.append((nm, f_))
+            return out
+        slots = {'path': paths_of(lambda v: isinstance(v, bytes) and v == b''),
+                 'vnodeid': paths_of(lambda v: isinstance(v, int) and not isinstance(v, bool) and v == 0),
+                 'lookup_events': paths_of(lambda v: isinstance(v, PList) and v.is_concrete() and not v.values())}
+        for what, found in slots.items():
+            if len(found) != 1:
+                raise Unsupported('the record loop of vnode_generator keeps its state (%s) in %d places: the loop invariant of the contract '
+                                  'does not apply to this shape' % (what, len(found)))
+
+        def sget(what):
+            nm, f_ = slots[what][0]
+            v = it.lookup(nm, fr)
+            return v if f_ is None else (v.fields.get(f_) if isinstance(v, Obj) else None)
+
+        def sset(what, val):
+            nm, f_ = slots[what][0]
+            if f_ is None:
+                fr.set(nm, val)
+            else:
+                it.lookup(nm, fr).setattr(f_, val)
         if not ctx.branch(z3.Bool('vg.inductive_step')):
             return True
         g, k = z3.Ints('vg.g vg.k')
@@ -73,13 +103,13 @@ def verify_vnode_generator(run, tier, prefix='C08/vnode_generator', only=None):
         # invariant at the head of iteration k
         empty_group = ctx.branch(g == k)
         if empty_group:
-            fr.set('path', b'')
-            fr.set('vnodeid', 0)
+            sset('path', b'')
+            sset('vnodeid', 0)
         else:
-            fr.set('path', OBytes(Cat(g, k)))
-            fr.set('vnodeid', SInt(z3.Int('vg.vid')))
+            sset('path', OBytes(Cat(g, k)))
+            sset('vnodeid', SInt(z3.Int('vg.vid')))
         grp = Group(g, k)
-        fr.set('lookup_events', grp)
+        sset('lookup_events', grp)
         # ghost definition of Cat, instantiated at (g, k)
         ctx.facts.append(Cat(g, g + 1) == pay(g))
         ctx.facts.append(z3.Implies(k > g, Cat(g, k + 1) == BConcat(Cat(g, k), pay(k))))
@@ -108,16 +138,16 @@ def verify_vnode_generator(run, tier, prefix='C08/vnode_generator', only=None):
                 want_vid = z3.If((fq_(k) % 2) == 1, v0(k), z3.If(g == k, z3.IntVal(0), z3.Int('vg.vid')))
                 ctx.oblige(prefix + '/step.vnode-id-of-the-START-record', vid == want_vid if vid is not None else z3.BoolVal(False))
             # state reset for the next group
-            np_ = it.lookup('path', fr)
+            np_ = sget('path')
             ctx.oblige(prefix + '/step.next-group-starts-empty', z3.BoolVal(isinstance(np_, bytes) and np_ == b'' and
-                                                                           it.lookup('vnodeid', fr) == 0 and
-                                                                           isinstance(it.lookup('lookup_events', fr), PList) and
-                                                                           not it.lookup('lookup_events', fr).items))
+                                                                           sget('vnodeid') == 0 and
+                                                                           isinstance(sget('lookup_events'), PList) and
+                                                                           not sget('lookup_events').items))
         else:
             ctx.oblige(prefix + '/step.END-record-yields', z3.Not(is_end))
-            np_ = it.lookup('path', fr)
+            np_ = sget('path')
             ctx.oblige(prefix + '/step.path-extended-by-the-payload', obytes_of(np_) == Cat(g, k + 1) if isinstance(np_, (OBytes, bytes)) else z3.BoolVal(False))
-            ctx.oblige(prefix + '/step.group-continues', z3.BoolVal(it.lookup('lookup_events', fr) is grp))
+            ctx.oblige(prefix + '/step.group-continues', z3.BoolVal(sget('lookup_events') is grp))
         raise pathsmod.PathCut('step')
     it.symloop_hook = hook
 
